@@ -38,6 +38,7 @@ type Solver struct {
 	Time    time.Duration
 	Log     io.Writer
 	LastErr string
+	stack   []int // ids of the path-condition nodes asserted, one push level each
 }
 
 // New starts a solver. kind: z3 | z3-new | cvc5. timeoutMs is the per-query limit.
@@ -68,6 +69,7 @@ func New(kind string, timeoutMs int) (*Solver, error) {
 		s.send("(set-logic ALL)")
 	}
 	s.send("(set-option :produce-models true)")
+	s.send("(set-option :global-declarations true)")
 	return s, nil
 }
 
@@ -137,6 +139,10 @@ func (s *Solver) Check(conj []*term.Term) (Result, error) {
 		s.define(c)
 	}
 	t0 := time.Now()
+	if len(s.stack) > 0 {
+		s.send(fmt.Sprintf("(pop %d)", len(s.stack)))
+		s.stack = s.stack[:0]
+	}
 	s.send("(push 1)")
 	for _, c := range conj {
 		s.send("(assert " + c.Ref() + ")")
@@ -266,4 +272,65 @@ func (s *Solver) Value(t *term.Term) (uint64, error) {
 		return strconv.ParseUint(val[2:], 16, 64)
 	}
 	return strconv.ParseUint(val[2:], 2, 64)
+}
+
+// PCItem is one conjunct of a path condition with a stable identity.
+type PCItem struct {
+	ID int
+	C  *term.Term
+}
+
+// CheckInc decides pc ∧ extra keeping the pc asserted incrementally: the solver's
+// assertion stack mirrors the path condition, and only the part that differs from the
+// previous query is popped / pushed.
+func (s *Solver) CheckInc(pc []PCItem, extra []*term.Term) (Result, error) {
+	for _, c := range pc {
+		s.define(c.C)
+	}
+	for _, c := range extra {
+		s.define(c)
+	}
+	t0 := time.Now()
+	common := 0
+	for common < len(pc) && common < len(s.stack) && s.stack[common] == pc[common].ID {
+		common++
+	}
+	if n := len(s.stack) - common; n > 0 {
+		s.send(fmt.Sprintf("(pop %d)", n))
+		s.stack = s.stack[:common]
+	}
+	for _, c := range pc[common:] {
+		s.send("(push 1)")
+		s.send("(assert " + c.C.Ref() + ")")
+		s.stack = append(s.stack, c.ID)
+	}
+	s.send("(push 1)")
+	for _, c := range extra {
+		s.send("(assert " + c.Ref() + ")")
+	}
+	s.send("(check-sat)")
+	s.in.Flush()
+	line, err := s.readLine()
+	s.Queries++
+	s.Time += time.Since(t0)
+	if err != nil {
+		return Unknown, err
+	}
+	switch line {
+	case "sat":
+		s.NSat++
+		return Sat, nil
+	case "unsat":
+		s.NUnsat++
+		s.send("(pop 1)")
+		return Unsat, nil
+	case "unknown", "timeout":
+		s.NUnk++
+		s.send("(pop 1)")
+		return Unknown, nil
+	}
+	s.Errors++
+	s.LastErr = line
+	s.send("(pop 1)")
+	return Unknown, fmt.Errorf("solver said: %q", line)
 }
